@@ -1580,8 +1580,10 @@ def _local_difference(n_sites, size):
 
 
 def _is_logging(t):
+    """Statements outside the compared behaviour: logging calls, and `assert` statements (a statement of belief that
+    `python -O` removes; an assert can only stop a run loudly, never change a result)."""
     return t[0] == "call" and t[1][0] == "attr" and t[1][2] in ("info", "debug", "warning", "error", "setLevel") \
-        or callee_name(t) in ("logging.basicConfig",)
+        or callee_name(t) in ("logging.basicConfig", "builtins.assert")
 
 
 def _is_append_to_local(t, frame):
